@@ -70,6 +70,11 @@ func renderFamily(c renderCfg, maxidx int) renderEvent {
 	rows := make([]string, len(c.Rows))
 	for i, l := range c.Rows {
 		rows[i] = strings.Repeat(string(rune('a'+i%26)), l)
+		if c.Msink {
+			// the menu is the sink: a row is the menu line "<sel>:<title>" of l bytes (l >= 3)
+			sel := string(rune('a' + i%26))
+			rows[i] = sel + ":" + strings.Repeat(sel, l-2)
+		}
 	}
 	content := strings.Join(rows, "\n")
 	ts := c.TplStatic
@@ -80,6 +85,11 @@ func renderFamily(c renderCfg, maxidx int) renderEvent {
 	errText := strings.Repeat("E", c.ErrLen)
 	tpl := strings.Repeat("T", ts-1) + "\n{{.data}}"
 	static := strings.Repeat("T", ts-1) + "\n"
+	if c.Msink {
+		// no sink symbol: the template is plain text, the renderer appends "\n{{._menu}}"
+		tpl = strings.Repeat("T", ts)
+		static = strings.Repeat("T", ts) + "\n"
+	}
 	if c.ValLen > 0 {
 		tpl = strings.Repeat("T", ts-1) + "{{.val}}\n{{.data}}"
 		static = strings.Repeat("T", ts-1) + val + "\n"
@@ -102,7 +112,9 @@ func renderFamily(c renderCfg, maxidx int) renderEvent {
 				}
 			}()
 			ca := cache.NewCache()
-			ca.Add("data", content, 0)
+			if !c.Msink {
+				ca.Add("data", content, 0)
+			}
 			rs := resource.NewMenuResource()
 			rs.WithTemplateGetter(func(ctx context.Context, s string) (string, error) { return tpl, nil })
 			rs.WithMenuGetter(func(ctx context.Context, s string) (string, error) { return s, nil })
@@ -111,13 +123,22 @@ func renderFamily(c renderCfg, maxidx int) renderEvent {
 				mn = mn.WithBrowseConfig(render.BrowseConfig{NextAvailable: c.NextLen > 0, NextSelector: nextSel, NextTitle: nextTitle,
 					PreviousAvailable: c.PrevLen > 0, PreviousSelector: prevSel, PreviousTitle: prevTitle})
 			}
-			if c.Menu > 0 {
+			if c.Menu > 0 && !c.Msink {
 				mn.Put(ordSel, ordTitle)
+			}
+			if c.Msink {
+				for _, r := range rows {
+					mn.Put(r[:1], r[2:])
+				}
+				bc := mn.GetBrowseConfig()
+				mn = mn.WithSink().WithBrowseConfig(bc).WithPages() // as vm.runMSink does
 			}
 			szr := render.NewSizer(uint32(c.Size))
 			pg := render.NewPage(ca, rs).WithMenu(mn).WithSizer(szr)
-			if err := pg.Map("data"); err != nil {
-				panic(err)
+			if !c.Msink {
+				if err := pg.Map("data"); err != nil {
+					panic(err)
+				}
 			}
 			if c.ValLen > 0 {
 				ca.Add("val", val, uint16(c.ValLen+2))
@@ -150,7 +171,7 @@ func renderFamily(c renderCfg, maxidx int) renderEvent {
 					p.Next = true
 				} else if last == prevSel+":"+prevTitle && c.PrevLen > 0 && !p.Prev {
 					p.Prev = true
-				} else if last == ordSel+":"+ordTitle && c.Menu > 0 && !haveOrd {
+				} else if last == ordSel+":"+ordTitle && c.Menu > 0 && !haveOrd && !c.Msink {
 					haveOrd = true
 				} else {
 					break
@@ -158,7 +179,7 @@ func renderFamily(c renderCfg, maxidx int) renderEvent {
 				lines = lines[:len(lines)-1]
 				nmenu++
 			}
-			if c.Menu > 0 && !haveOrd {
+			if c.Menu > 0 && !haveOrd && !c.Msink {
 				p.StaticOk = false
 			}
 			p.Rows = lines
@@ -223,10 +244,17 @@ func cmdRenderRandom(args []string) error {
 			c.NextLen, c.PrevLen = 4+rng.Intn(12), 4+rng.Intn(12)
 		}
 		nr := 1 + rng.Intn(40)
+		if rng.Intn(5) == 0 && c.ValLen == 0 {
+			c.Msink = true
+			nr = 1 + rng.Intn(26)
+		}
 		for k := 0; k < nr; k++ {
 			l := rng.Intn(24)
 			if rng.Intn(6) == 0 {
 				l = 0
+			}
+			if c.Msink && l < 3 {
+				l = 3
 			}
 			c.Rows = append(c.Rows, l)
 		}
